@@ -4,6 +4,7 @@ import PcVerif.Ops.Base
 import PcVerif.Ops.Geometry
 import PcVerif.Ops.TextFormats
 import PcVerif.Ops.Xml
+import PcVerif.Ops.TextWriters
 namespace PcVerif.Ops
-def table : List (String × Proto.Handler) := utilOps ++ detectOps ++ baseOps ++ geoOps ++ textFormatOps ++ xmlOps ++ samiWriterOps
+def table : List (String × Proto.Handler) := utilOps ++ detectOps ++ baseOps ++ geoOps ++ textFormatOps ++ xmlOps ++ samiWriterOps ++ textWriterOps ++ xmlTextOps
 end PcVerif.Ops
